@@ -19,6 +19,7 @@ import (
 	"sync/atomic"
 	"time"
 
+	wio "github.com/whatap/golib/io"
 	"github.com/whatap/golib/lang/pack"
 	wnet "github.com/whatap/golib/net"
 	"github.com/whatap/golib/net/oneway"
@@ -353,7 +354,24 @@ type scenario struct {
 	singleton bool
 	sendClear bool
 	relicense bool // change the client's default license between two phases of sends
+	poison    bool // now and then a sender hands over a pack whose Write panics half-way
 }
+
+// poisonPack is a pack that cannot be encoded: its Write emits a few bytes and panics. Nothing
+// of it may reach the wire, and the frames of the packs around it must stay intact.
+type poisonPack struct {
+	pack.AbstractPack
+}
+
+func (p *poisonPack) GetPackType() int16 { return pack.PACK_TEXT }
+func (p *poisonPack) Write(o *wio.DataOutputX) {
+	p.AbstractPack.Write(o)
+	o.WriteDecimal(3)
+	o.WriteByte(1)
+	o.WriteInt(0x0a000a00)
+	panic("poison pack: this pack cannot be encoded")
+}
+func (p *poisonPack) Read(in *wio.DataInputX) {}
 
 var licenses = []string{"", "x4ab2-lic-default", "라이선스-ключ-🔑", strings.Repeat("L", 300)}
 
@@ -405,6 +423,7 @@ func mkPack(r *vlib.Rand, sender, seq int, big bool) (pack.Pack, int64) {
 }
 
 var sendLockHeld int32
+var poisonSent int64
 
 func runScenario(c *vlib.Ctx, sc scenario, r *vlib.Rand, label string) {
 	old := runtime.GOMAXPROCS(sc.gomax)
@@ -506,6 +525,12 @@ func runScenario(c *vlib.Ctx, sc scenario, r *vlib.Rand, label string) {
 						if o <= m || atomic.CompareAndSwapInt32(&maxOpen, m, o) {
 							break
 						}
+					}
+					if sc.poison && (s+q)%7 == 3 {
+						pp := &poisonPack{}
+						pp.Pcode = 4711
+						vlib.Catch(func() { cl.SendFlush(pp, q%2 == 0) })
+						atomic.AddInt64(&poisonSent, 1)
 					}
 					it.ev.t0 = int64(time.Since(start))
 					var e error
@@ -931,7 +956,7 @@ func main() {
 		runScenario(c, scenario{kind: "healthy-single", senders: 1, perSender: r.Range(50, 400), gomax: gomaxes[i%4]}, r, fmt.Sprint("healthy-single#", i))
 	})
 	c.Cases("healthy-multi", scale(40, 800), func(i int, r *vlib.Rand) {
-		runScenario(c, scenario{kind: "healthy-multi", senders: r.Range(2, 32), perSender: r.Range(20, 120), gomax: gomaxes[i%4]}, r, fmt.Sprint("healthy-multi#", i))
+		runScenario(c, scenario{kind: "healthy-multi", senders: r.Range(2, 32), perSender: r.Range(20, 120), gomax: gomaxes[i%4], poison: i%3 == 1}, r, fmt.Sprint("healthy-multi#", i))
 	})
 	c.Cases("healthy-relicense", scale(12, 200), func(i int, r *vlib.Rand) {
 		runScenario(c, scenario{kind: "healthy-relicense", senders: r.Range(1, 8), perSender: r.Range(10, 80), gomax: gomaxes[i%4], relicense: true, bg: i%3 == 0}, r, fmt.Sprint("healthy-relicense#", i))
@@ -1015,6 +1040,7 @@ func main() {
 		runScenario(c, scenario{kind: "bg-fault", senders: r.Range(1, 6), perSender: r.Range(10, 40), gomax: gomaxes[(i+1)%4], bg: true, schedule: cutPoints(r, i)}, r, fmt.Sprint("bg-fault#", i))
 	})
 	per := int64(c.NShards)
+	c.Count("unencodable_packs_handed_over", atomic.LoadInt64(&poisonSent))
 	c.Floor("frames_received", 2000/per/3, c.Counter("frames_received"))
 	c.Floor("cuts_executed", 20/per, c.Counter("cuts_executed"))
 	c.Floor("recoveries_observed", 20/per, c.Counter("recoveries_observed"))
